@@ -56,7 +56,13 @@ func runNamesSim(env *RunEnv) {
 	dbs := []string{"db", "my-db1", "A", "db-2", "0"}
 	raw := raws[t.Choose("nm-raw", len(raws))]
 	db := dbs[t.Choose("nm-db", len(dbs))]
-	sim.Logf("cfg names-sim raw=%q db=%q", raw, db)
+	// The process may run in any time zone: the fake clock's Local location is
+	// set to a fixed non-UTC zone in most runs (names are documented as UTC).
+	zone := []*time.Location{time.UTC, time.FixedZone("plus2", 2*3600), time.FixedZone("minus5", -5*3600), time.FixedZone("plus545", 5*3600+45*60)}[t.Choose("nm-zone", 4)]
+	oldLocal := time.Local
+	time.Local = zone
+	defer func() { time.Local = oldLocal }()
+	sim.Logf("cfg names-sim raw=%q db=%q zone=%s", raw, db, zone)
 
 	// --- part 1: a real syncer uploads under that name ---
 	e, err := lmdbenv.NewWithOptions(env.Root+"/names", lmdbenv.Options{Create: true, MapSize: 16 * datasize.MB, EnvFlags: lmdb.NoSync | lmdb.NoMetaSync})
@@ -209,7 +215,10 @@ func runNamesSim(env *RunEnv) {
 			extra = append(extra, "X42", "Yabc")
 		}
 		for _, v := range tss {
-			ts := time.Unix(0, v).UTC()
+			ts := time.Unix(0, v).In(zone)
+			if t.Chance("nm-ts-utc", 300) {
+				ts = ts.UTC()
+			}
 			ni := snapshot.NameInfo{Kind: snapshot.KindSnapshot, Extension: snapshot.DefaultExtension, SyncerName: db, InstanceID: wantInst, GenerationID: "GX", Timestamp: ts, Extra: extra}
 			name := ni.BuildName()
 			back, err := snapshot.ParseName(name)
